@@ -29,6 +29,12 @@ def hand_witnesses():
     W['result-unwrap-or-default-type'] = main('    let r: Result<int, string> = Result.Ok { value: 4 }\n    let v: int = (result_unwrap_or r true)\n    (println v)',
                                               'union Result<T, E> {\n    Ok { value: T },\n    Err { error: E }\n}\n')
     W['string-order-comparison'] = main('    let v5: bool = (< "a" "b")\n    (println v5)')
+    SH = 'shadow %s { assert true }\n'
+    W['duplicate-parameter-names'] = main('    (println (f3 1 2))', 'fn f3(v4: int, v4: int) -> int {\n    return v4\n}\n' + SH % 'f3')
+    W['main-with-parameters'] = 'fn main(v1: int) -> int {\n    return 0\n}\n' + SH % 'main'
+    W['global-initialiser-call'] = 'fn f3() -> int {\n    return 7\n}\n' + SH % 'f3' + 'let v10: int = (f3)\n' + main('    (println v10)', '')
+    W['void-operands'] = main('    (println (== (f3) (f3)))', 'fn f3() -> void {\n    (println 1)\n}\n' + SH % 'f3')
+    W['void-variable'] = main('    let v5: void = (f3)', 'fn f3() -> void {\n    (println 1)\n}\n' + SH % 'f3')
     return W
 
 
@@ -39,6 +45,8 @@ def reject_witnesses():
         # spec 8.2: an inner scope may shadow an outer variable -- also at another type
         'reject:shadow-other-type': (F1 + 'fn main() -> int {\n    let v5: int = 4\n    if true {\n        let v5: bool = true\n        (println v5)\n    }\n'
                                      '    let v6: int = (+ v5 1)\n    (println v6)\n    return 0\n}\nshadow main { assert true }\n'),
+        # spec 5.6: "I allow any expression to be used as a statement"
+        'reject:pure-expression-statement': (F1 + 'fn main() -> int {\n    5\n    return 0\n}\nshadow main { assert true }\n'),
     }
 
 
@@ -169,7 +177,7 @@ def run(ck):
                 ck.fail('c04:gen:%s:%s' % (pid, t), 'accepted well-typed program ends in an internal failure on %s: %s' % (t, f), dict(rep, tool=t, failure=f))
         ck.sample(dict(program=srcs[0][:1000], type_check=verd[0][0]))
         # ---- 3. their mutants: ill-typed by theorem; what does the real checker say, and what happens to those it accepts?
-        nmut_prog = nprog if ck.thorough else 10
+        nmut_prog = nprog if ck.thorough else 16
         per_cause = 20 if ck.thorough else 4
         muts = T.model_mutants(nv, sx[:nmut_prog])        # the handwritten programs come first: their mutants are always included
         items = []
